@@ -168,3 +168,51 @@ class ReachingDefs:
 
     def reaching_out(self, node, name):
         return [self.defs[i] for i in sorted(self.OUT[node.id]) if self.defs[i].name == name]
+
+
+def possibly_undefined(cfg, fn_node, params):
+    """[(name, cfg node, ast.Name)] for loads of function locals that some path from the entry reaches without any assignment
+    (or after a `del`).  Locals = names stored anywhere in the function body (not nested scopes), minus global/nonlocal names."""
+    from .cfg import stmt_exprs
+    declared = set()
+    stored = set()
+    for n in walk_no_nested(fn_node):
+        if isinstance(n, (ast.Global, ast.Nonlocal)):
+            declared |= set(n.names)
+        elif isinstance(n, ast.Name) and isinstance(n.ctx, (ast.Store, ast.Del)):
+            stored.add(n.id)
+        elif isinstance(n, ast.ExceptHandler) and n.name:
+            stored.add(n.name)
+        elif isinstance(n, (ast.Import, ast.ImportFrom)):
+            for a in n.names:
+                stored.add((a.asname or a.name).split(".")[0])
+        elif isinstance(n, (ast.FunctionDef, ast.ClassDef, ast.AsyncFunctionDef)) and n is not fn_node:
+            stored.add(n.name)
+    # names bound only inside comprehensions are not function locals
+    comp_only = set()
+    for n in walk_no_nested(fn_node):
+        if isinstance(n, (ast.ListComp, ast.SetComp, ast.DictComp, ast.GeneratorExp)):
+            for g in n.generators:
+                for x in ast.walk(g.target):
+                    if isinstance(x, ast.Name):
+                        comp_only.add(x.id)
+    locals_ = stored - declared - set(params)
+    rd = ReachingDefs(cfg, list(params) + sorted(locals_))
+    out = []
+    for node in cfg.nodes:
+        if node.id not in cfg.live():
+            continue
+        for e in stmt_exprs(node):
+            comp_bound = set()
+            for x in walk_no_nested(e):
+                if isinstance(x, (ast.ListComp, ast.SetComp, ast.DictComp, ast.GeneratorExp)):
+                    for g in x.generators:
+                        for y in ast.walk(g.target):
+                            if isinstance(y, ast.Name):
+                                comp_bound.add(y.id)
+            for x in walk_no_nested(e):
+                if isinstance(x, ast.Name) and isinstance(x.ctx, ast.Load) and x.id in locals_ and x.id not in comp_bound:
+                    defs = rd.reaching(node, x.id)
+                    if any(d.kind in ("param", "del") for d in defs):
+                        out.append((x.id, node, x))
+    return out
